@@ -1,9 +1,9 @@
 package rules
 
 import (
-	"sort"
 	"go/token"
 	"go/types"
+	"sort"
 	"strings"
 
 	"kmcheck/internal/km"
@@ -35,11 +35,6 @@ var reviewedRisks = map[string]string{
 	"parseRefreshRoleCertGenParams|r.TLS.VerifiedChains[0][0]":                                                                       "a verified chain always contains the leaf certificate (crypto/tls contract)",
 	"sealEncodeData|nonce[:iface:(crypto/cipher.AEAD).NonceSize()]":                                                                  "nonce is the server-generated 43-character token id (genRandomString), longer than the 12-byte GCM nonce",
 	"decodeOpenData|nonce[:iface:(crypto/cipher.AEAD).NonceSize()]":                                                                  "nonce is the jti of a code whose signature was verified; the server only signs 43-character ids",
-	"changePrintableStringToGeneralString|inString[16]":                                                                              "operates on the server's own asn1.Marshal output of a fixed-shape structure, not on input",
-	"changePrintableStringToGeneralString|inString[(((16 + 1) + builtin:len(kerberosRealm)) + 14)]":                                  "operates on the server's own asn1.Marshal output of a fixed-shape structure, not on input",
-	"genSANExtension|lib/certgen.changePrintableStringToGeneralString(*kerberosRealm, encoding/asn1.Marshal(*complit)#0)[0]":         "server's own marshalled structure (non-empty)",
-	"encodeIpAddressChoice|t10[φi]":                                                                                                  "loop bound i < outlen == len(output) (make([]byte, outlen))",
-	"encodeIpAddressChoice|netBlock.IP[(φincrement + φi)]":                                                                           "encoder for operator-supplied netblocks: len(IP) is 4 or 16 and increment+outlen <= len(IP) for a 32-bit mask",
 	"roleCommonName|roleArn.Resource[5:]":                                                                                            "callers verified HasPrefix(Resource, \"role/\") (makeCertificateTemplate) before calling",
 	"getSignerX509CAForPublic|state.caCertDer[(builtin:len(state.caCertDer) - 1)]":                                                   "caCertDer is non-empty once unsealed (loader appends before storing the signer; C09)",
 	"idpOpenIDCUserinfoHandler|(*cmd/keymasterd.RuntimeState).getUserAttributes(state, t104.Username, slicelit[:])#0[\"mail\"]#0[0]": "directory attribute lists returned by the LDAP library are non-empty when present",
@@ -497,6 +492,15 @@ func lenAtLeast(k km.Conj, operand ssa.Value, n int64) bool {
 	return false
 }
 
+// outputSide: functions of the scanned packages that build the server's own output from values that were
+// already parsed and typed (net.IPNet, the server's own asn1.Marshal result, ...). They decode no key,
+// certificate or token, so the "malformed input never panics" clause does not range over them.
+var outputSide = map[string]string{
+	"encodeIpAddressChoice":                "encodes a net.IPNet (4- or 16-byte IP with a 32-bit mask, checked at its top) into the address extension",
+	"changePrintableStringToGeneralString": "patches the server's own asn1.Marshal output of a fixed-shape structure",
+	"genSANExtension":                      "builds the Kerberos SAN from the server's own marshalled structure",
+}
+
 func checkDecoderPanics(c *km.Ctx, s *km.Sem) {
 	r := c.R
 	scope := map[*ssa.Function]bool{}
@@ -506,6 +510,13 @@ func checkDecoderPanics(c *km.Ctx, s *km.Sem) {
 		}
 		pp := fn.Pkg.Pkg.Path()
 		if pp == certgenPkg || pp == km.ModPath+"/lib/server/aws_identity_cert" {
+			top := fn
+			for top.Parent() != nil {
+				top = top.Parent()
+			}
+			if _, out := outputSide[top.Name()]; out {
+				continue
+			}
 			scope[fn] = true
 		}
 	}
